@@ -6,4 +6,4 @@ cd /repo && git apply "$patch" || { echo "APPLY FAILED"; exit 3; }
 for p in "$@"; do
   (cd /verif && ./run check $p 2>&1 | grep -E "^(VIOLATION|UNDECIDED|KNOWN|property|note)" | cut -c1-300; echo "  -> $p rc=${PIPESTATUS[0]}")
 done
-cd /repo && git checkout -- . && git status --short | head -3
+cd /repo && git checkout -- . && git status --short | head -3; cd /verif && git checkout -- evidence 2>/dev/null; find /verif/replays -name "*.json" -newer /verif/MANIFEST.json -delete 2>/dev/null
